@@ -3,6 +3,7 @@ package main
 import (
 	"errors"
 	"fmt"
+	"time"
 	"math/rand"
 	"reflect"
 	"strings"
@@ -17,6 +18,8 @@ type HNode struct {
 }
 type SS []SS
 type MM map[string]MM
+type SA [][1]SA          // a slice whose elements are arrays of itself
+type MA map[string][2]MA // a map whose values are arrays of itself
 
 // a value position in the graph spec
 type hv struct {
@@ -26,7 +29,7 @@ type hv struct {
 }
 
 type hcell struct {
-	kind  string // node anyslice anymap ss mm
+	kind  string // node anyslice anymap ss mm pany
 	p     hv     // node: the P field (ptr / nilptr)
 	i     hv     // node: the I field (an iface value or nilany)
 	items []hv   // slices and maps
@@ -67,6 +70,8 @@ func (g *hgraph) coq() string {
 		switch c.kind {
 		case "node":
 			xs = append(xs, fmt.Sprintf("(%d, CVal (VStruct [%s; %s]))", a, c.p.coq(), c.i.coq()))
+		case "pany":
+			xs = append(xs, fmt.Sprintf("(%d, CVal %s)", a, c.i.coq()))
 		default:
 			var items []string
 			for _, it := range c.items {
@@ -85,6 +90,8 @@ func (g *hgraph) build() any {
 		switch c.kind {
 		case "node":
 			objs[a] = &HNode{}
+		case "pany":
+			objs[a] = new(any)
 		case "anyslice":
 			objs[a] = make([]any, len(c.items))
 		case "anymap":
@@ -124,6 +131,10 @@ func (g *hgraph) build() any {
 			}
 			if c.i.kind == "iface" {
 				n.I = val(*c.i.in)
+			}
+		case "pany":
+			if c.i.kind == "iface" {
+				*(objs[a].(*any)) = val(*c.i.in)
 			}
 		case "anyslice":
 			s := objs[a].([]any)
@@ -190,6 +201,9 @@ func (g *hgraph) cyclic() bool {
 			out = refs(c.p, out)
 			out = refs(c.i, out)
 		}
+		if c.kind == "pany" {
+			out = refs(c.i, out)
+		}
 		for _, it := range c.items {
 			out = refs(it, out)
 		}
@@ -254,6 +268,13 @@ func chainGraph(flavour string, prefix, cyc int) *hgraph {
 				c.items = []hv{ifaceOf(hv{kind: "anymap", addr: t})}
 			}
 			g.cells = append(g.cells, c)
+		case "pany":
+			// a pointer to an interface that holds the next pointer: var a any; a = &a
+			c := hcell{kind: "pany", i: ifaceOf(hv{kind: "int"})}
+			if t >= 0 {
+				c.i = ifaceOf(hv{kind: "ptr", addr: t})
+			}
+			g.cells = append(g.cells, c)
 		case "ss":
 			c := hcell{kind: "ss", items: []hv{{kind: "nilslice"}}}
 			if t >= 0 {
@@ -273,7 +294,7 @@ func chainGraph(flavour string, prefix, cyc int) *hgraph {
 		return g
 	}
 	switch flavour {
-	case "ptr", "iface":
+	case "ptr", "iface", "pany":
 		g.root = hv{kind: "ptr", addr: 0}
 	default:
 		g.root = hv{kind: flavour, addr: 0}
@@ -341,6 +362,20 @@ func randGraph(r *rand.Rand, n int, acyclic bool) *hgraph {
 	return g
 }
 
+// run f in its own goroutine; if it has not returned after d it is abandoned (a call that never returns
+// cannot be stopped: the goroutine keeps spinning until the process exits) and errDiverge is reported
+func withWatchdog(d time.Duration, leaked *int, f func() error) error {
+	done := make(chan error, 1)
+	go func() { done <- f() }()
+	select {
+	case e := <-done:
+		return e
+	case <-time.After(d):
+		*leaked++
+		return errDiverge
+	}
+}
+
 func famHeap(dir string, seed int64, tier string) {
 	thorough := tier == "thorough"
 	rep := newReport("heap", seed, tier)
@@ -350,7 +385,7 @@ func famHeap(dir string, seed int64, tier string) {
 	var graphs []*hgraph
 	var tags []string
 	add := func(g *hgraph, tag string) { graphs = append(graphs, g); tags = append(tags, tag) }
-	flavours := []string{"ptr", "iface", "anyslice", "anymap", "ss", "mm"}
+	flavours := []string{"ptr", "iface", "pany", "anyslice", "anymap", "ss", "mm"}
 	depths := []int{0, 1, 2, 10, 499, 500, 501, 998, 999, 1000, 1001, 1002, 2000}
 	if thorough {
 		depths = append(depths, 333, 1500, 3000, 5000)
@@ -373,6 +408,50 @@ func famHeap(dir string, seed int64, tier string) {
 			}
 		}
 	}
+	// a DAG with a shared node below many levels of indirection: not a cycle, at any depth
+	for _, d := range []int{1, 997, 998, 999, 1000, 1001, 1500} {
+		g := chainGraph("ptr", d, 0)
+		last := len(g.cells) - 1
+		shared := len(g.cells)
+		g.cells = append(g.cells, hcell{kind: "node", p: hv{kind: "nilptr"}, i: ifaceOf(hv{kind: "int"})})
+		g.cells[last].p = hv{kind: "ptr", addr: shared}
+		g.cells[last].i = ifaceOf(hv{kind: "ptr", addr: shared})
+		add(g, fmt.Sprintf("diamond below %d pointer levels", d))
+	}
+	// a pointer prefix of every small length in front of a pointer/interface cycle (parity of the depth counter)
+	for p := 0; p <= 6; p++ {
+		for _, fl := range []string{"iface", "pany"} {
+			g := chainGraph("ptr", p, 0)
+			c := chainGraph(fl, 0, 1+p%2)
+			off := len(g.cells)
+			for _, cell := range c.cells {
+				shift := func(v hv) hv {
+					if v.kind == "ptr" {
+						v.addr += off
+					}
+					if v.kind == "iface" && v.in.kind == "ptr" {
+						in := *v.in
+						in.addr += off
+						v.in = &in
+					}
+					return v
+				}
+				cell.p = shift(cell.p)
+				cell.i = shift(cell.i)
+				g.cells = append(g.cells, cell)
+			}
+			if p > 0 {
+				if fl == "pany" {
+					g.cells[off-1].i = ifaceOf(hv{kind: "ptr", addr: off}) // an `any` field holding the *any
+				} else {
+					g.cells[off-1].p = hv{kind: "ptr", addr: off}
+				}
+			} else {
+				g.root = hv{kind: "ptr", addr: off}
+			}
+			add(g, fmt.Sprintf("ptr prefix %d then %s cycle", p, fl))
+		}
+	}
 	nrand := 60
 	if thorough {
 		nrand = 1500
@@ -380,6 +459,7 @@ func famHeap(dir string, seed int64, tier string) {
 	for i := 0; i < nrand; i++ {
 		add(randGraph(r, 2+r.Intn(10), i%2 == 0), "random")
 	}
+	leaked := 0
 	for gi, g := range graphs {
 		root := g.build()
 		desc := tags[gi]
@@ -388,21 +468,31 @@ func famHeap(dir string, seed int64, tier string) {
 		}
 		cyc := g.cyclic()
 		var kinds []byte
-		err := guard(func() error {
-			s := sb.Marshal(root)
-			for i := 0; ; i++ {
-				var t sb.Token
-				if e := s.Next(&t); e != nil {
-					return e
+		if leaked >= 6 && cyc {
+			rep.count("skipped after repeated divergence")
+			continue
+		}
+		err := withWatchdog(8*time.Second, &leaked, func() error {
+			t0 := time.Now()
+			var ks []byte
+			e := guard(func() error {
+				s := sb.Marshal(root)
+				for i := 0; ; i++ {
+					var t sb.Token
+					if e := s.Next(&t); e != nil {
+						return e
+					}
+					if t.Invalid() {
+						return nil
+					}
+					ks = append(ks, byte(t.Kind))
+					if i > 60000 || (i%1000 == 0 && time.Since(t0) > 4*time.Second) {
+						return errDiverge
+					}
 				}
-				if t.Invalid() {
-					return nil
-				}
-				kinds = append(kinds, byte(t.Kind))
-				if i > 400000 {
-					return errDiverge
-				}
-			}
+			})
+			kinds = ks
+			return e
 		})
 		rep.Evaluations++
 		rep.count("class:" + classOf(err))
@@ -411,7 +501,7 @@ func famHeap(dir string, seed int64, tier string) {
 		case classOf(err) == "EPanic":
 			rep.violate("C18", "marshal-panic", fmt.Sprintf("Marshal panicked: %v", err), desc)
 		case classOf(err) == "EDiverge":
-			rep.violate("C18", "marshal-diverges", "more than 400000 tokens produced: marshalling does not terminate", desc)
+			rep.violate("C18", "marshal-diverges", "more than 60000 tokens (or 4 s) without an end: marshalling does not terminate", desc)
 		case cyc && classOf(err) != "ECyclic":
 			rep.violate("C18", "cycle-not-reported", fmt.Sprintf("a cyclic value marshalled without a cyclic-pointer error (%v, %d tokens)", err, len(kinds)), desc)
 		case !cyc && err != nil:
@@ -440,6 +530,70 @@ func famHeap(dir string, seed int64, tier string) {
 		}
 		if len(g.cells) <= 2500 || thorough {
 			w.add(fmt.Sprintf("HeapCase %s %s %s", g.coq(), g.root.coq(), obs), desc, len(g.cells) >= 2)
+		}
+	}
+	// cycles and chains through slices / maps of ARRAYS (Go-side oracles only: arrays are not in the heap model)
+	for _, n := range []int{1, 2, 3, 1001} {
+		for _, cyclic := range []bool{false, true} {
+			sas := make([]SA, n)
+			for i := range sas {
+				sas[i] = make(SA, 1)
+			}
+			for i := 0; i+1 < n; i++ {
+				sas[i][0][0] = sas[i+1]
+			}
+			if cyclic {
+				sas[n-1][0][0] = sas[0]
+			}
+			mas := make([]MA, n)
+			for i := range mas {
+				mas[i] = MA{}
+			}
+			for i := 0; i+1 < n; i++ {
+				mas[i]["k"] = [2]MA{nil, mas[i+1]}
+			}
+			if cyclic {
+				mas[n-1]["k"] = [2]MA{mas[0], nil}
+			} else {
+				mas[n-1]["k"] = [2]MA{}
+			}
+			for _, root := range []any{sas[0], mas[0]} {
+				desc := fmt.Sprintf("array flavour %T n=%d cyclic=%v", root, n, cyclic)
+				if leaked >= 6 && cyclic {
+					continue
+				}
+				err := withWatchdog(8*time.Second, &leaked, func() error {
+					count := 0
+					t1 := time.Now()
+					return guard(func() error {
+						s := sb.Marshal(root)
+						for {
+							var t sb.Token
+							if e := s.Next(&t); e != nil {
+								return e
+							}
+							if t.Invalid() {
+								return nil
+							}
+							count++
+							if count > 60000 || (count%1000 == 0 && time.Since(t1) > 4*time.Second) {
+								return errDiverge
+							}
+						}
+					})
+				})
+				rep.Evaluations++
+				switch {
+				case classOf(err) == "EPanic":
+					rep.violate("C18", "marshal-panic", fmt.Sprintf("Marshal panicked: %v", err), desc)
+				case classOf(err) == "EDiverge":
+					rep.violate("C18", "marshal-diverges", "more than 60000 tokens (or 4 s) without an end: marshalling does not terminate", desc)
+				case cyclic && classOf(err) != "ECyclic":
+					rep.violate("C18", "cycle-not-reported", fmt.Sprintf("a cyclic value marshalled without a cyclic-pointer error (%v)", err), desc)
+				case !cyclic && err != nil:
+					rep.violate("C18", "acyclic-rejected", fmt.Sprintf("an acyclic value failed to marshal: %v", err), desc)
+				}
+			}
 		}
 	}
 	w.flush()
